@@ -1,15 +1,15 @@
 SPECIFICATION Spec
 CONSTANTS
-  N = 4
+  N = 3
   MaxTrees = 2
   NW = 2
-  NT = 5
+  NT = 1
   Observe = FALSE
   ObserveFrom = 1
-  TrackDist = FALSE
+  TrackDist = TRUE
   TrackOperand = FALSE
   AdoptLists = FALSE
-  BookkeepFirst = FALSE
+  BookkeepFirst = TRUE
   CacheChecksCount = TRUE
-INVARIANT GraphAgrees
+INVARIANT FreqExact
 CHECK_DEADLOCK FALSE
